@@ -81,6 +81,11 @@ CLAIMS = {
          "every escape form repr writes is decoded by the literal reader with the same width; chr() rejects exactly from 0x110000; the one-element tuple repr has its comma. "
          "Does not decide: the results of search/split/strip/replace for all strings, comparison order, the full repr/eval round trip for every value (floats and nested containers are values), normalisation of negative start/end in count/find.",
          "DESIGN.md §4 C14"),
+ "C16": ("typed-AST phase-order analysis of the generic attribute read; decision tables of the binding methods by symbolic path enumeration; call-graph reachability; loop-bound structure of the C3 merge; storage-sharing analysis on class creation",
+         "Decides: a class read consults the class's own MRO and binds with __get__(None, class); the phases of the generic read come in the defined order with the defined __get__ arguments; Function/Method bind the instance, ClassMethod the class, StaticMethod nothing; "
+         "isinstance decides through the MRO walk; the C3 rejection loop ranges over all lists and restarts after acceptance; type(name, bases, ns) copies ns; generic write/delete touch only the object's own dictionary. "
+         "Does not decide: that the C3 result is the right linearisation for every DAG (algorithmic), data-descriptor precedence (not implemented in gpython), special-method lookup via Go interfaces, metaclass conflicts.",
+         "DESIGN.md §4 C16"),
 }
 _todo = "rules for this property are designed (DESIGN.md §4) but not yet implemented in this revision of the checker"
-NA = {p: _todo for p in ["C16"]}
+NA = {}
